@@ -2,6 +2,7 @@ package main
 
 import (
 	"fmt"
+	"strings"
 
 	"github.com/mochi-mqtt/server/v2/packets"
 
@@ -132,6 +133,9 @@ func checkC26(c *vk.Ctx) {
 			w := map[string]any{"version": in.Ver, "hdr": in.Hdr, "body": fmt.Sprintf("% x", head(in.Body))}
 			pk.Mods.AllowResponseInfo = true
 			first := normalise(fromMochi(pk))
+			// documented suppression: the encoder leaves out a Response Topic that contains wildcard characters
+			// [MQTT-3.3.2-14] (properties.go, same condition as the response-information switch)
+			first.Props, first.WillProps = dropWildcardResponseTopic(first.Props), dropWildcardResponseTopic(first.WillProps)
 			wire, err := mochiEncode(pk)
 			if err != nil {
 				c.Violate("C26/accepted-not-reencodable", attrs, fmt.Sprintf("accepted input cannot be re-encoded: %v", err), w)
@@ -177,4 +181,15 @@ func fieldOf(d string) string {
 		}
 	}
 	return d
+}
+
+func dropWildcardResponseTopic(ps rc.Props) rc.Props {
+	var out rc.Props
+	for _, p := range ps {
+		if p.ID == rc.PResponseTopic && strings.ContainsAny(p.Str, "+#") {
+			continue
+		}
+		out = append(out, p)
+	}
+	return out
 }
